@@ -947,7 +947,7 @@ pub fn run(ctx: &mut Ctx) {
     }
     ctx.enumerated("static-W-contexts", n, true, t0);
     ctx.note("W_contexts_exhaustive", serde_json::json!(exhaustive));
-    ctx.stream("static-W-random-contexts", ctx.tier.pick(6_000, 100_000), 500, |s| {
+    ctx.stream("static-W-random-contexts", ctx.tier.pick(4_000, 100_000), 500, |s| {
         let mut caps = 0;
         for (_, b) in vis::BITS {
             if s.bool() {
@@ -969,8 +969,8 @@ pub fn run(ctx: &mut Ctx) {
         ctx.stream("probe-dynamic-interfaces", n_dyn / 20, 700, |s| dyn_case(s, &probe));
     }
     ctx.floor("documents-executed", 1000);
-    ctx.floor("hidden-elements", 2000);
-    ctx.floor("hidden-types", 2000);
+    ctx.floor("hidden-elements", 1500);
+    ctx.floor("hidden-types", 1500);
     ctx.floor("type-condition", 500);
     if main.inheritance {
         ctx.floor("interface-inheritance", 200);
